@@ -158,6 +158,18 @@ func (f *frame) call(t *ssa.Call) {
 		res := f.setFreshResult(t)
 		// slices returned by these library functions are freshly allocated (or nil)
 		f.assumeFreshSlices(t.Type(), res.T, before)
+		if callee.Name() == "BitLen" && fnPkg(callee) != nil && fnPkg(callee).Pkg.Path() == "math/big" && len(res.T) == 1 {
+			// law of math/big: the bit length of an integer is never negative
+			f.assume(BVCmp("bvsge", res.T[0], BVConst(big.NewInt(0), 64)))
+			x.note("(*math/big.Int).BitLen: the result is >= 0 (law of math/big)")
+		}
+		if fnPkg(callee) != nil && fnPkg(callee).Pkg.Path() == "math/big" && len(res.T) == 1 {
+			if pt, ok := t.Type().(*types.Pointer); ok && pt.Elem().String() == "math/big.Int" {
+				// law of math/big: NewInt and the arithmetic methods return a non-nil *big.Int (the receiver or a new one)
+				f.assume(Not(Eq(res.T[0], IntConst(0))))
+				x.note("math/big: a *big.Int returned by NewInt / an arithmetic method is non-nil (law of math/big)")
+			}
+		}
 		if callee.Name() == "EncodeToString" && len(args) > 0 && len(res.T) == 1 {
 			// every textual encoding is at least as long as its input
 			src := args[len(args)-1]
